@@ -364,11 +364,13 @@ def run_check(mod, tier, seed, jobs=None, replay_confirm=True):
 
 def write_evidence(prop, ev):
     d = os.path.join(VERIF_ROOT, "evidence")
-    if bootstrap.repo_path() != "/repo":
+    if os.environ.get("VERIF_EVIDENCE_DIR"):
+        d = os.environ["VERIF_EVIDENCE_DIR"]  # (development runs: keep the committed evidence untouched)
+    elif bootstrap.repo_path() != "/repo":
         # runs against a scratch copy (seeded-change evaluation) never touch the committed evidence
         import tempfile
 
-        d = os.environ.get("VERIF_EVIDENCE_DIR") or os.path.join(tempfile.gettempdir(), "verif_evidence_scratch")
+        d = os.path.join(tempfile.gettempdir(), "verif_evidence_scratch")
     os.makedirs(d, exist_ok=True)
     path = os.path.join(d, f"{prop}.json")
     tmp = path + ".tmp"
